@@ -32,6 +32,8 @@
 //!           -- validates the model's `typeOf` (the executable form of the `HasType` judgment) against the real rules
 use crate::util::*;
 use rssl::ir;
+
+mod ext;
 use rssl::ir::ScalarType;
 use rssl::typer::verif::ImplicitConversion;
 
@@ -858,6 +860,162 @@ impl<'a> Walk<'a> {
         self.module.type_registry.extract_modifier(t).1.is_const
     }
 
+    /// the type of an expression **per the declarations**: the declared type of the variable / member / element the
+    /// expression denotes, computed structurally (never through `Expression::get_type`, whose answer is under test)
+    fn decl_ty(&self, e: &ir::Expression) -> Option<ir::TypeId> {
+        let m = self.module;
+        let reg = &m.type_registry;
+        Some(match e {
+            ir::Expression::Variable(id) if id.0 < m.variable_registry.get_variable_count() => m.variable_registry.get_local_variable(*id).type_id,
+            ir::Expression::Global(id) => m.global_registry.get(id.0 as usize)?.type_id,
+            ir::Expression::MemberVariable(id, idx) | ir::Expression::StructMember(_, id, idx) => {
+                m.struct_registry.get(id.0 as usize)?.members.get(*idx as usize)?.type_id
+            }
+            ir::Expression::ConstantVariable(id) => m.cbuffer_registry.get(id.0.0 as usize)?.members.get(id.1 as usize)?.type_id,
+            ir::Expression::ArraySubscript(a, _) => {
+                let base = reg.remove_modifier(self.decl_ty(a)?);
+                match reg.get_type_layer(base) {
+                    ir::TypeLayer::Array(inner, _) => inner,
+                    ir::TypeLayer::Vector(st, _) => st,
+                    ir::TypeLayer::Matrix(st, _, y) => reg.register_type(ir::TypeLayer::Vector(st, y)),
+                    ir::TypeLayer::Object(o) => {
+                        use ir::ObjectType::*;
+                        match o {
+                            Buffer(t) | RWBuffer(t) | StructuredBuffer(t) | RWStructuredBuffer(t) | Texture2D(t) | RWTexture2D(t)
+                            | Texture2DMipsSlice(t) | Texture2DArray(t) | RWTexture2DArray(t) | Texture2DArrayMipsSlice(t) | Texture3D(t)
+                            | RWTexture3D(t) | Texture3DMipsSlice(t) => t,
+                            _ => return None,
+                        }
+                    }
+                    _ => return None,
+                }
+            }
+            ir::Expression::Swizzle(x, slots) => {
+                let base = reg.remove_modifier(self.decl_ty(x)?);
+                let st = match reg.get_type_layer(base) {
+                    ir::TypeLayer::Scalar(_) => base,
+                    ir::TypeLayer::Vector(st, _) => st,
+                    _ => return None,
+                };
+                if slots.len() == 1 { st } else { reg.register_type(ir::TypeLayer::Vector(st, slots.len() as u32)) }
+            }
+            ir::Expression::MatrixSwizzle(x, slots) => {
+                let base = reg.remove_modifier(self.decl_ty(x)?);
+                let st = match reg.get_type_layer(base) {
+                    ir::TypeLayer::Matrix(st, _, _) => st,
+                    _ => return None,
+                };
+                if slots.len() == 1 { st } else { reg.register_type(ir::TypeLayer::Vector(st, slots.len() as u32)) }
+            }
+            ir::Expression::Call(id, _, _) if id.0 < m.function_registry.get_function_count() => {
+                m.function_registry.get_function_signature(*id).return_type.return_type
+            }
+            ir::Expression::Cast(t, _) | ir::Expression::Constructor(t, _) => *t,
+            ir::Expression::Sequence(v) => self.decl_ty(v.last()?)?,
+            ir::Expression::IntrinsicOp(op, args) if is_write_op(op) => self.decl_ty(args.first()?)?,
+            // values (operator results, `?:`, literals, ...): no declaration to consult, and never an lvalue
+            _ => guard(|| e.get_type(m)).ok()?.ok()?.0,
+        })
+    }
+
+    /// Is the expression something the program may write to, **per the declarations**?  `(is an lvalue, is const, path)`:
+    /// a variable is an lvalue, const if declared so (extern globals are implicitly const: their registered type says so);
+    /// a member / element / swizzle of something inherits both from it, an element / member is also const if its own
+    /// declared type is; a swizzle naming a component twice, a call, a cast, a constructor, an operator result, a literal
+    /// are not lvalues.  The path names the projections from the base outwards (`:c` = const at that level).
+    fn place(&self, e: &ir::Expression) -> (bool, bool, String) {
+        let m = self.module;
+        let reg = &m.type_registry;
+        let own_const = |w: &Walk, x: &ir::Expression| w.decl_ty(x).map(|t| reg.is_const(t)).unwrap_or(false);
+        let mark = |c: bool| if c { ":c" } else { "" };
+        match e {
+            ir::Expression::Variable(_) | ir::Expression::Global(_) | ir::Expression::MemberVariable(..) | ir::Expression::ConstantVariable(_) => {
+                let c = own_const(self, e);
+                let arr = matches!(self.decl_ty(e).map(|t| reg.get_type_layer(reg.remove_modifier(t))), Some(ir::TypeLayer::Array(..)));
+                // the members of a constant buffer are read-only whatever their declared type says
+                if matches!(e, ir::Expression::ConstantVariable(_)) {
+                    return (true, true, format!("cbuffer{}:c", if arr { "[a]" } else { "" }));
+                }
+                let base = if matches!(e, ir::Expression::Variable(_)) { "var" } else { "global" };
+                (true, c, format!("{}{}{}", base, if arr { "[a]" } else { "" }, mark(c)))
+            }
+            ir::Expression::StructMember(x, _, _) => {
+                let (l, c, p) = self.place(x);
+                let oc = own_const(self, e);
+                (l, c || oc, format!("{}>mem{}", p, mark(oc)))
+            }
+            ir::Expression::ArraySubscript(a, _) => {
+                let (l, c, p) = self.place(a);
+                let kind = match self.decl_ty(a).map(|t| reg.get_type_layer(reg.remove_modifier(t))) {
+                    Some(ir::TypeLayer::Array(..)) => "a",
+                    Some(ir::TypeLayer::Vector(..)) => "v",
+                    Some(ir::TypeLayer::Matrix(..)) => "m",
+                    _ => "?",
+                };
+                if kind == "?" {
+                    // buffers / textures: the object decides — RW resources are written through, the others are read-only
+                    use ir::ObjectType::*;
+                    return match self.decl_ty(a).map(|t| reg.get_type_layer(reg.remove_modifier(t))) {
+                        Some(ir::TypeLayer::Object(RWBuffer(_) | RWStructuredBuffer(_) | RWTexture2D(_) | RWTexture2DArray(_) | RWTexture3D(_))) => {
+                            (true, false, format!("{}>idx[rw]", p))
+                        }
+                        Some(ir::TypeLayer::Object(
+                            Buffer(_) | StructuredBuffer(_) | Texture2D(_) | Texture2DMipsSlice(_) | Texture2DArray(_) | Texture2DArrayMipsSlice(_)
+                            | Texture3D(_) | Texture3DMipsSlice(_),
+                        )) => (true, true, format!("{}>idx[ro]:c", p)),
+                        _ => (true, false, format!("{}>idx[?]", p)),
+                    };
+                }
+                let oc = own_const(self, e);
+                (l, c || oc, format!("{}>idx[{}]{}", p, kind, mark(oc)))
+            }
+            ir::Expression::Swizzle(x, slots) => {
+                let (l, c, p) = self.place(x);
+                let dup = (0..slots.len()).any(|i| (0..i).any(|j| slots[i] == slots[j]));
+                (l && !dup, c, format!("{}>swz{}", p, if dup { "[dup]" } else { "" }))
+            }
+            ir::Expression::MatrixSwizzle(x, slots) => {
+                let (l, c, p) = self.place(x);
+                let dup = (0..slots.len()).any(|i| (0..i).any(|j| slots[i] == slots[j]));
+                (l && !dup, c, format!("{}>mswz{}", p, if dup { "[dup]" } else { "" }))
+            }
+            ir::Expression::ObjectMember(x, name) => {
+                let (l, c, p) = self.place(x);
+                if matches!(name.as_str(), "Origin" | "TMin" | "Direction" | "TMax") {
+                    // the fields of a RayDesc behave like struct members
+                    (l, c, format!("{}>mem[obj]", p))
+                } else {
+                    (true, false, format!("{}>objmem", p))
+                }
+            }
+            ir::Expression::Sequence(v) => match v.last() {
+                Some(x) => self.place(x),
+                None => (false, false, "seq".into()),
+            },
+            ir::Expression::IntrinsicOp(op, args) if is_write_op(op) && !args.is_empty() => {
+                // `(a = b)`, `(a += b)`, `++a` denote `a` again
+                let (l, c, p) = self.place(&args[0]);
+                (l, c, format!("{}>assigned", p))
+            }
+            ir::Expression::IntrinsicOp(..) => (false, false, "op".into()),
+            ir::Expression::Call(..) => (false, false, "call".into()),
+            ir::Expression::Cast(..) => (false, false, "cast".into()),
+            ir::Expression::Constructor(..) => (false, false, "ctor".into()),
+            ir::Expression::TernaryConditional(..) => (false, false, "tern".into()),
+            ir::Expression::Literal(_) | ir::Expression::EnumValue(_) | ir::Expression::SizeOf(_) => (false, false, "lit".into()),
+        }
+    }
+
+    /// a write (assignment family, ++/--, out / inout argument) must go to a non-const lvalue per the declarations
+    fn require_writable(&mut self, what: &str, target: &ir::Expression) {
+        let (l, c, path) = self.place(target);
+        if !l {
+            self.errors.push(format!("{} writes to a non-lvalue per the declarations: {}", what, path));
+        } else if c {
+            self.errors.push(format!("{} writes to a const object per the declarations: {}", what, path));
+        }
+    }
+
     fn require(&mut self, what: &str, required: ir::TypeId, got: ir::TypeId) {
         if required != got {
             let reg = &self.module.type_registry;
@@ -895,6 +1053,16 @@ impl<'a> Walk<'a> {
                 }
                 if let ir::Expression::StructMember(x, _, _) = e {
                     self.expr(x);
+                    // the operand is a value of that struct
+                    if let Some(t) = self.ty(x) {
+                        let mut l = m.type_registry.get_type_layer(m.type_registry.remove_modifier(t.0));
+                        if let ir::TypeLayer::Object(ir::ObjectType::ConstantBuffer(inner)) = l {
+                            l = m.type_registry.get_type_layer(m.type_registry.remove_modifier(inner));
+                        }
+                        if l != ir::TypeLayer::Struct(*id) {
+                            self.errors.push(format!("member of struct {} taken from {}", id.0, self.show(t.0)));
+                        }
+                    }
                 }
             }
             ir::Expression::ConstantVariable(id) => {
@@ -923,14 +1091,128 @@ impl<'a> Walk<'a> {
                     self.expr(x);
                 }
             }
-            ir::Expression::Swizzle(x, _) | ir::Expression::MatrixSwizzle(x, _) | ir::Expression::ObjectMember(x, _) => self.expr(x),
+            ir::Expression::ObjectMember(x, _) => self.expr(x),
+            ir::Expression::Swizzle(x, slots) => {
+                self.expr(x);
+                // a swizzle selects existing components of a scalar / vector
+                if slots.is_empty() {
+                    self.errors.push("swizzle without components".into());
+                }
+                // ... and at most four: there is no vector type with more components
+                if slots.len() > 4 {
+                    self.errors.push(format!("swizzle with {} components", slots.len()));
+                }
+                if let Some(t) = self.ty(x) {
+                    let width = match m.type_registry.get_type_layer(m.type_registry.remove_modifier(t.0)) {
+                        ir::TypeLayer::Scalar(_) => Some(1),
+                        ir::TypeLayer::Vector(_, n) => Some(n),
+                        _ => None,
+                    };
+                    match width {
+                        None => self.errors.push(format!("swizzle of a non-vector: {}", self.show(t.0))),
+                        Some(n) => {
+                            for sl in slots {
+                                let k = match sl {
+                                    ir::SwizzleSlot::X => 0,
+                                    ir::SwizzleSlot::Y => 1,
+                                    ir::SwizzleSlot::Z => 2,
+                                    ir::SwizzleSlot::W => 3,
+                                };
+                                if k >= n {
+                                    self.errors.push(format!("swizzle component {} of {}", k, self.show(t.0)));
+                                }
+                            }
+                        }
+                    }
+                }
+            }
+            ir::Expression::MatrixSwizzle(x, slots) => {
+                self.expr(x);
+                if slots.is_empty() {
+                    self.errors.push("matrix swizzle without components".into());
+                }
+                if let Some(t) = self.ty(x) {
+                    match m.type_registry.get_type_layer(m.type_registry.remove_modifier(t.0)) {
+                        ir::TypeLayer::Matrix(_, rows, cols) => {
+                            let c = |c: &ir::ComponentIndex| match c {
+                                ir::ComponentIndex::First => 0,
+                                ir::ComponentIndex::Second => 1,
+                                ir::ComponentIndex::Third => 2,
+                                ir::ComponentIndex::Forth => 3,
+                            };
+                            for sl in slots {
+                                if c(&sl.0) >= rows || c(&sl.1) >= cols {
+                                    self.errors.push(format!("matrix swizzle component {}.{} of {}", c(&sl.0), c(&sl.1), self.show(t.0)));
+                                }
+                            }
+                        }
+                        _ => self.errors.push(format!("matrix swizzle of a non-matrix: {}", self.show(t.0))),
+                    }
+                }
+            }
             ir::Expression::ArraySubscript(a, i) => {
                 self.expr(a);
                 self.expr(i);
+                // arrays, vectors and matrices are indexed by exactly a `uint`
+                if let (Some(ta), Some(ti)) = (self.ty(a), self.ty(i)) {
+                    match m.type_registry.get_type_layer(m.type_registry.remove_modifier(ta.0)) {
+                        ir::TypeLayer::Array(..) | ir::TypeLayer::Vector(..) | ir::TypeLayer::Matrix(..) => {
+                            let uint_ty = m.type_registry.register_type(ir::TypeLayer::Scalar(ScalarType::UInt32));
+                            self.require("subscript index", uint_ty, ti.0);
+                        }
+                        ir::TypeLayer::Object(o) => {
+                            // buffers are indexed by a `uint`, 2D textures by a `uint2`, 2D texture arrays and 3D textures by a `uint3`
+                            use ir::ObjectType::*;
+                            let width = match o {
+                                Buffer(_) | RWBuffer(_) | StructuredBuffer(_) | RWStructuredBuffer(_) | Texture2DMips(_) | Texture2DArrayMips(_)
+                                | Texture3DMips(_) => Some(1),
+                                Texture2D(_) | Texture2DMipsSlice(_) | RWTexture2D(_) => Some(2),
+                                Texture2DArray(_) | Texture2DArrayMipsSlice(_) | RWTexture2DArray(_) | Texture3D(_) | Texture3DMipsSlice(_)
+                                | RWTexture3D(_) => Some(3),
+                                _ => None,
+                            };
+                            match width {
+                                Some(w) => {
+                                    let uint_ty = m.type_registry.register_type(ir::TypeLayer::Scalar(ScalarType::UInt32));
+                                    let req = if w == 1 { uint_ty } else { m.type_registry.register_type(ir::TypeLayer::Vector(uint_ty, w)) };
+                                    self.require("subscript index", req, ti.0);
+                                }
+                                None => self.errors.push(format!("subscript of an object without subscript: {}", self.show(ta.0))),
+                            }
+                        }
+                        _ => self.errors.push(format!("subscript of a non-array: {}", self.show(ta.0))),
+                    }
+                }
             }
-            ir::Expression::Constructor(_, slots) => {
+            ir::Expression::Constructor(t, slots) => {
                 for s in slots {
                     self.expr(&s.expr);
+                }
+                // a numeric constructor receives, slot by slot, values of its own scalar kind; the slot arities are the
+                // element counts of the slot values and add up to the element count of the constructed type
+                let reg = &m.type_registry;
+                let base = reg.remove_modifier(*t);
+                let tyl = reg.get_type_layer(base);
+                match (matches!(tyl, ir::TypeLayer::Scalar(_) | ir::TypeLayer::Vector(..) | ir::TypeLayer::Matrix(..)), reg.extract_scalar(base)) {
+                    (true, Some(sc)) => {
+                        let mut total = 0;
+                        for s in slots {
+                            total += s.arity;
+                            if let Some(ts) = self.ty(&s.expr) {
+                                let sl = reg.get_type_layer(ts.0);
+                                let numeric = matches!(sl, ir::TypeLayer::Scalar(_) | ir::TypeLayer::Vector(..) | ir::TypeLayer::Matrix(..));
+                                if !numeric || reg.extract_scalar(ts.0) != Some(sc) {
+                                    self.errors.push(format!("constructor of {} receives a slot of type {}", self.show(*t), self.show(ts.0)));
+                                } else if sl.get_num_elements() != s.arity {
+                                    self.errors.push(format!("constructor slot of arity {} holds {}", s.arity, self.show(ts.0)));
+                                }
+                            }
+                        }
+                        if total != tyl.get_num_elements() {
+                            self.errors.push(format!("constructor of {} receives {} elements", self.show(*t), total));
+                        }
+                    }
+                    _ => self.errors.push(format!("constructor of a non-numeric type {}", self.show(*t))),
                 }
             }
             ir::Expression::Cast(t, x) => {
@@ -947,9 +1229,14 @@ impl<'a> Walk<'a> {
                     self.errors.push("function id out of range".into());
                     return;
                 }
-                // user functions called as free functions: arguments are exactly the parameter types
-                if m.function_registry.get_intrinsic_data(*id).is_none() && *ct == ir::CallType::FreeFunction {
-                    let sig = m.function_registry.get_function_signature(*id).clone();
+                // functions called as free functions (user functions and non-template intrinsic functions): arguments are
+                // exactly the parameter types
+                let sig0 = m.function_registry.get_function_signature(*id);
+                // a method call carries the object as an extra first argument
+                let skip = if *ct == ir::CallType::FreeFunction { 0 } else { 1 };
+                if sig0.template_params.is_empty() && args.len() >= skip {
+                    let sig = sig0.clone();
+                    let args = &args[skip..];
                     if args.len() > sig.param_types.len() || args.len() < sig.non_default_params {
                         self.errors.push(format!("call with {} arguments, signature takes {}..{}", args.len(), sig.non_default_params, sig.param_types.len()));
                     }
@@ -971,6 +1258,9 @@ impl<'a> Walk<'a> {
                                 }
                                 if self.is_const(ta.0) {
                                     self.errors.push("const passed to out/inout parameter".into());
+                                }
+                                if ta.1 == ir::ValueType::Lvalue && !self.is_const(ta.0) {
+                                    self.require_writable("out/inout argument", a);
                                 }
                             }
                         }
@@ -995,12 +1285,16 @@ impl<'a> Walk<'a> {
                                 self.errors.push("increment of const".into());
                             }
                             let base = m.type_registry.remove_modifier(t.0);
+                            // enums are incrementable by decision (fix 606facd keeps `is_incrementable` true for them)
                             let numeric = matches!(
                                 m.type_registry.get_type_layer(base),
-                                ir::TypeLayer::Scalar(_) | ir::TypeLayer::Vector(..) | ir::TypeLayer::Matrix(..)
+                                ir::TypeLayer::Scalar(_) | ir::TypeLayer::Vector(..) | ir::TypeLayer::Matrix(..) | ir::TypeLayer::Enum(_)
                             );
                             if !numeric || m.type_registry.extract_scalar(base) == Some(ScalarType::Bool) {
                                 self.errors.push(format!("increment of a non-numeric operand: {}", self.show(t.0)));
+                            }
+                            if t.1 == ir::ValueType::Lvalue && !self.is_const(t.0) {
+                                self.require_writable("increment", &args[0]);
                             }
                         }
                     }
@@ -1032,6 +1326,9 @@ impl<'a> Walk<'a> {
                             if self.is_const(a.0) {
                                 self.errors.push("assignment to const".into());
                             }
+                            if a.1 == ir::ValueType::Lvalue && !self.is_const(a.0) {
+                                self.require_writable("assignment", &args[0]);
+                            }
                             self.require("assigned value", a.0, b.0);
                         }
                     }
@@ -1051,8 +1348,31 @@ impl<'a> Walk<'a> {
                 }
             }
             ir::Initializer::Aggregate(v) => {
-                for x in v {
-                    self.init(x, None);
+                // an aggregate has one item per component, each initialising exactly that component
+                let reg = &self.module.type_registry;
+                let comps: Option<Vec<ir::TypeId>> = required.and_then(|r| match reg.get_type_layer(reg.remove_modifier(r)) {
+                    ir::TypeLayer::Vector(st, n) => Some(vec![st; n as usize]),
+                    ir::TypeLayer::Array(inner, Some(n)) => Some(vec![inner; n as usize]),
+                    ir::TypeLayer::Struct(id) => self.module.struct_registry.get(id.0 as usize).map(|sd| sd.members.iter().map(|m| m.type_id).collect()),
+                    _ => None,
+                });
+                match comps {
+                    Some(c) => {
+                        if c.len() != v.len() {
+                            self.errors.push(format!("aggregate initialiser with {} items for {} components", v.len(), c.len()));
+                        }
+                        for (x, t) in v.iter().zip(c.iter()) {
+                            self.init(x, Some(*t));
+                        }
+                    }
+                    None => {
+                        if let Some(r) = required {
+                            self.errors.push(format!("aggregate initialiser for {}", self.show(r)));
+                        }
+                        for x in v {
+                            self.init(x, None);
+                        }
+                    }
                 }
             }
         }
@@ -1123,6 +1443,17 @@ impl<'a> Walk<'a> {
     }
 }
 
+/// operators whose result denotes their first operand again (assignment family, prefix ++ / --)
+fn is_write_op(op: &ir::IntrinsicOp) -> bool {
+    use ir::IntrinsicOp::*;
+    matches!(
+        op,
+        PrefixIncrement | PrefixDecrement | Assignment | SumAssignment | DifferenceAssignment | ProductAssignment | QuotientAssignment
+            | RemainderAssignment | LeftShiftAssignment | RightShiftAssignment | BitwiseAndAssignment | BitwiseOrAssignment
+            | BitwiseXorAssignment
+    )
+}
+
 /// walk every function body of an accepted module; returns (node count, violations)
 fn walk_module(module: &ir::Module, names: &Names) -> (u64, Vec<String>) {
     let mut w = Walk { module, names, errors: Vec::new(), nodes: 0 };
@@ -1135,6 +1466,11 @@ fn walk_module(module: &ir::Module, names: &Names) -> (u64, Vec<String>) {
             for p in &imp.params {
                 if let Some(d) = &p.default_expr {
                     w.expr(d);
+                    // a default argument initialises the parameter: exactly the parameter's (unmodified) type
+                    if let Some(t) = w.ty(d) {
+                        let reg = &module.type_registry;
+                        w.require("default argument", reg.remove_modifier(p.param_type.type_id), reg.remove_modifier(t.0));
+                    }
                 }
             }
             w.block(&imp.scope_block, ret);
@@ -1284,6 +1620,33 @@ impl Runner {
             self.hist.add(&format!("stmt:{}", h));
         }
         count_nodes(stmt, &mut self.hist);
+        out.case(&req, &obs, &oracle);
+    }
+
+    /// C03.src: a raw RSSL program (one line); observation = verdict + Debug of the last statement of `t`; the IR walk
+    /// is the oracle.  Not compared with the model (it answers `unsupported`): used for reproducers and probing.
+    fn src_case(&mut self, src: &str, out: &mut Out) {
+        let req = format!("C03.src\t{}", src);
+        self.compiles += 1;
+        let (obs, oracle) = match guard(|| type_check(src)) {
+            Err(p) => (format!("panic {}", panic_file(&p)), format!("FAIL:panic {}", p)),
+            Ok(Checked::Front(stage)) => (format!("front {}", stage), "SKIP:rejected before type checking".to_string()),
+            Ok(Checked::Reject(kind)) => (format!("reject {}", kind), "ok".to_string()),
+            Ok(Checked::Accept(m)) => {
+                let names = Names::build(&m);
+                let (nodes, errors) = walk_module(&m, &names);
+                self.nodes += nodes;
+                let last = m
+                    .function_registry
+                    .iter()
+                    .find(|id| m.function_registry.get_function_name(*id) == "t")
+                    .and_then(|id| m.function_registry.get_function_implementation(id).as_ref())
+                    .and_then(|imp| imp.scope_block.0.last())
+                    .map(|s| one_line(&format!("{:?}", s.kind)))
+                    .unwrap_or_else(|| "?".into());
+                (format!("accept {}", last), errors.first().map(|e| format!("FAIL:{}", e)).unwrap_or_else(|| "ok".into()))
+            }
+        };
         out.case(&req, &obs, &oracle);
     }
 
@@ -1747,6 +2110,15 @@ pub fn run(args: &Args, out: &mut Out) {
                     (Some(env), Some(stmt)) => r.prog_case(&env, &stmt, expect, out),
                     _ => out.case(&line, "-", "SKIP:bad request"),
                 },
+                ["C03.src", src] => r.src_case(src, out),
+                ["C03.progx", others, vars, funcs, ret, body, expect] => match (ext::parse_envx(others, vars, funcs, ret), parse_sx(body)) {
+                    (Some(env), Some(body)) => r.progx_case(&env, &body, expect, out),
+                    _ => out.case(&line, "-", "SKIP:bad request"),
+                },
+                ["C03.typex", others, vars, funcs, ret, typed] => match (ext::parse_envx(others, vars, funcs, ret), parse_sx(typed)) {
+                    (Some(env), Some(t)) => r.typex_case(&env, &t, out),
+                    _ => out.case(&line, "-", "SKIP:bad request"),
+                },
                 ["C03.type", vars, funcs, ret, typed] => match (parse_env(vars, funcs, ret), parse_sx(typed)) {
                     (Some(env), Some(t)) => r.type_case(&env, &t, out),
                     _ => out.case(&line, "-", "SKIP:bad request"),
@@ -1898,6 +2270,70 @@ pub fn run(args: &Args, out: &mut Out) {
             }
         }
     }
+
+    // (4b) default arguments: every parameter type with default expressions of every type (raw programs, oracle only)
+    {
+        let tys = ["int", "uint", "float", "bool", "float3", "int2", "float2x2", "S0", "half"];
+        let exprs = ["1", "1u", "1.5", "true", "1.0f", "float3(1, 2, 3)", "int2(1, 2)", "(S0)0", "g0", "g1", "g2", "float2x2(1, 2, 3, 4)", "(half)1"];
+        for t in tys {
+            for e in exprs {
+                let src = format!("struct S0 {{ int q; }}; static int g0; static float3 g1; static S0 g2; void f({} p = {}) {{}} void t() {{ f(); }}", t, e);
+                r.src_case(&src, out);
+            }
+        }
+    }
+
+    // (4c) methods of resources and structs: arguments (also out / inout) go through the same overload machinery (raw
+    //      programs, oracle only)
+    {
+        let pre = "struct S0 { int q; float3 v; void set(out float x, float y) { x = y; } float get(inout int k) { return q; } }; \
+                   Texture2D<float4> tx; RWTexture2D<float4> rw; ByteAddressBuffer bab; RWByteAddressBuffer rwb; StructuredBuffer<float4> sb; \
+                   float3 mk(); static const float cf = 1; static float3 gv; enum E0 { E0_A, E0_B, E0_C };";
+        let bodies = [
+            "uint w; uint h; tx.GetDimensions(w, h);",
+            "const uint w = 1; uint h; tx.GetDimensions(w, h);",
+            "uint h; tx.GetDimensions(1u, h);",
+            "uint2 d; tx.GetDimensions(d.x, d.y);",
+            "uint2 d; tx.GetDimensions(d.x, d.xx);",
+            "float w; float h; tx.GetDimensions(w, h);",
+            "int w; uint h; tx.GetDimensions(w, h);",
+            "uint3 d; rw.GetDimensions(d[0], d[1]);",
+            "uint s; uint v = bab.Load(0, s);",
+            "uint v = bab.Load(0, mk().x);",
+            "uint o; rwb.InterlockedAdd(0, 1, o);",
+            "rwb.InterlockedAdd(0, 1, cf);",
+            "uint n; uint st; sb.GetDimensions(n, st);",
+            "S0 s; float f; s.set(f, 1);",
+            "S0 s; s.set(cf, 1);",
+            "S0 s; s.set(gv.x, 1);",
+            "S0 s; s.set(mk().x, 1);",
+            "S0 s; s.set(mk()[0], 1);",
+            "S0 s; int k; float f = s.get(k);",
+            "S0 s; float f = s.get(1);",
+            "S0 s; float f = s.get(s.q);",
+            "const S0 s = (S0)0; float f = s.get(s.q);",
+            "float4 c = tx.Load(int3(0, 0, 0));",
+            "float4 c = tx.Load(1);",
+            "float4 c = tx.Load(gv);",
+            "float4 c = tx.mips[0][uint2(0, 0)];",
+            "tx.mips[0][uint2(0, 0)] = 1;",
+            "RayDesc rd; rd.TMin = 1; rd.Origin.x = cf; float3 d = rd.Direction;",
+            "const RayDesc rd = (RayDesc)0; rd.TMax = 1;",
+            "RayDesc rd; rd.Nope = 1;",
+            "uint n = sizeof(float3) + sizeof(S0) + sizeof(gv);",
+            "uint n = sizeof(1);",
+            "E0 e = E0_A; int i = E0_B; e = E0_C; i = e + 1; bool b = e == E0_A; e++; E0_A = e;",
+            "E0 e = 1;",
+            "E0 e; e = 2;",
+            "int i = -E0_B + ~E0_C; bool b = !E0_A;",
+        ];
+        for b in bodies {
+            r.src_case(&format!("{} void t() {{ {} }}", pre, b), out);
+        }
+    }
+
+    // (5) the extended language: swizzles, members, subscripts, constructors, intrinsic functions
+    ext::run_ext(&mut r, &mut rng, args, out);
 
     out.stat(&format!(
         "{{\"conv_universe\":{},\"conv_pairs\":{},\"random_statements\":{},\"compiles\":{},\"ir_nodes_walked\":{},\"hist\":{}}}",
